@@ -393,13 +393,15 @@ func (fr *Frame) enterLoop(li *loopInfo, b *ssa.BasicBlock, st *State, in []edge
 	if ws["*"] {
 		u.havocAll(hs)
 	} else {
+		var evs []string
 		for _, c := range sortedKeys(ws) {
 			if strings.HasPrefix(c, "ev:") {
-				u.havocEvents(hs, c[3:])
+				evs = append(evs, c[3:])
 			} else {
 				u.havocComp(hs, c)
 			}
 		}
+		u.havocEvents(hs, evs...)
 	}
 	li.phiHdr = map[*ssa.Phi]Term{}
 	for _, ins := range b.Instrs {
